@@ -45,6 +45,8 @@ def configs(tier):
             out.append(dict(key=f"positional,sizes={s},labels={lab}", sizes=list(s), dissim="positional", labels=lab, backend="cbc", cost=50))
     for lab in ["none", "mixed", "xy", "empty-string"]:
         out.append(dict(key=f"combined,sizes=(1, 1),labels={lab}", sizes=[1, 1], dissim="combined", labels=lab, backend="cbc", cost=60))
+    # units of one annotator may start together (ties on position: the container orders them by end, then label)
+    out.append(dict(key="positional,sizes=(2, 1),labels=mixed,ties-on-start-allowed", sizes=[2, 1], dissim="positional", labels="mixed", backend="cbc", ties=True, cost=400))
     # histories on one continuum object: an earlier computation, then an edit through the public API, then the alignment under test
     for s in [(2, 1), (1, 1, 1)]:
         for warm in ("remove", "add-remove"):
